@@ -81,8 +81,13 @@ class Requests(Part):
         predshapes = ["list", "zero", "array", "tuple", "zero-array", "list", "zero-list"]
         rng.shuffle(predshapes)
 
+        failing = set(rng.sample(range(len(accepts)), max(0, len(accepts) // 6))) if (fl != "eval" and case["cseed"] % 5 == 2) else set()
+
         def objective(ind):
             state["objcalls"] += 1
+            if state["i"] in failing:
+                state["raised"] = True
+                raise RuntimeError("solver diverged")
             v = [float(sum(ind.vector)) * 1.5 + 0.25, float(ind.vector[0]) - 7.0]
             state["last_true"] = v
             return v
@@ -177,6 +182,7 @@ class Requests(Part):
             state["last_true"] = state["last_pred"] = None
             state["pred_made"] = False
             state["hookcalls"] = 0
+            state["raised"] = False
             # vectors come from a small pool: the same design may be requested (and truly evaluated) several times
             ind = Individual(list(rng.choice(vpool)))
             if rng.random() < 0.25:
@@ -188,7 +194,10 @@ class Requests(Part):
             ev = {"ev": "request", "accept": bool(acc), "kind": "eval", "returned_true": False, "returned_pred": False,
                   "evalcnt": sur.eval_counter, "predcnt": sur.predict_counter, "ndata": len(sur.x_data), "trains": state["trains"],
                   "objcalls": state["objcalls"], "trained": bool(sur.trained), "pair_ok": True, "exc": ""}
-            if st == "exc":
+            if st == "exc" and state["raised"]:
+                ev["ev"] = "failed"          # the objective itself failed: judged by FailedEv
+                ev["exc"] = val
+            elif st == "exc":
                 ev["exc"] = val
             else:
                 if state["last_true"] is not None:
